@@ -401,6 +401,13 @@ func overlayJSON(P *Program, dir string) (string, error) {
 	// registries
 	gen := filepath.Join(dir, "gen")
 	os.MkdirAll(gen, 0o755)
+	for _, shared := range []string{"zz_verif_api.go", "zz_verif_replay_test.go"} {
+		if b, err := os.ReadFile(filepath.Join(cfg.HarnessDir, shared)); err == nil {
+			f := filepath.Join(gen, "mqtttest_"+shared)
+			os.WriteFile(f, []byte(strings.Replace(string(b), "\npackage mqtt\n", "\npackage mqtttest\n", 1)), 0o644)
+			repl[filepath.Join(cfg.RepoDir, "mqtttest", shared)] = f
+		}
+	}
 	writeReg := func(pkg string, names []string, dst string) {
 		var sb strings.Builder
 		sb.WriteString("//go:build verif\n\npackage " + pkg + "\n\nvar verifHarnesses = map[string]func(){\n")
